@@ -1,3 +1,5 @@
+import OtelVerif.Props.C05
 import OtelVerif.Props.C09
 import OtelVerif.Props.C11
+import OtelVerif.Props.C12
 import OtelVerif.Props.C14
